@@ -74,6 +74,17 @@ def oracle(o):
     if not h or not a or o.get("dial_err"):
         return [("handshake-failed", "HEL/ACK or OPN failed for an in-range configuration: %s / server: %s" % (o.get("dial_err"), o.get("server_recv_err")))]
     c2s, s2c = o["c2s"], o["s2c"]
+    # the limits each Conn reports after the handshake (Conn.ReceiveBufSize / SendBufSize): a side must accept
+    # chunks up to what it announced and must not send chunks larger than the peer announced
+    cc, sc_ = o.get("client_conn"), o.get("server_conn")
+    if cc and cc["recv"] < min(h["recv"], a["send"]):
+        out.append(("client-receive-limit-below-announced", "client announced a receive buffer of %d, server may send chunks of %d, but the client accepts only %d" % (h["recv"], a["send"], cc["recv"])))
+    if sc_ and sc_["recv"] < a["recv"]:
+        out.append(("server-receive-limit-below-announced", "server announced a receive buffer of %d but accepts only %d" % (a["recv"], sc_["recv"])))
+    if cc and cc["send"] > a["recv"]:
+        out.append(("client-chunk-size-exceeds-ack-recv", "client will send chunks of %d, server announced a receive buffer of %d" % (cc["send"], a["recv"])))
+    if sc_ and sc_["send"] > h["recv"]:
+        out.append(("server-chunk-size-exceeds-hello-recv", "server will send chunks of %d, client announced a receive buffer of %d" % (sc_["send"], h["recv"])))
     if c2s and max(c2s) > a["recv"]:
         out.append(("c2s-chunk-exceeds-ack-recv", "client sent a %d-byte chunk, server announced a receive buffer of %d" % (max(c2s), a["recv"])))
     if s2c and max(s2c) > h["recv"]:
@@ -89,7 +100,7 @@ def oracle(o):
     if s2c and max(s2c) <= h["recv"] and not o["resp_arrived"] and o["resp_on_wire"] == o["resp_msg"] and h["maxmsg"] and h["maxchunks"] and \
             not (o["resp_on_wire"] > h["maxmsg"]) and not (len(s2c) > h["maxchunks"]):
         out.append(("conforming-response-rejected", "response within everything the client announced did not arrive: client %s" % o.get("client_err")))
-    if s2c and o.get("client_err") == "uacp-too-large" and max(s2c) <= h["recv"]:
+    if s2c and "uacp-too-large" in (o.get("client_err"), o.get("client_chan_err")) and max(s2c) <= h["recv"]:
         out.append(("conforming-chunk-rejected", "client rejected a chunk of %d bytes although it announced a receive buffer of %d" % (max(s2c), h["recv"])))
     # an over-limit message must be refused by the sender with an error
     if a["maxmsg"] and o["req_msg"] > a["maxmsg"] and not c2s and not str(o.get("client_err", "")).startswith("refused"):
@@ -157,6 +168,9 @@ def run(ctx):
     # still times out it is INCONCLUSIVE: dropped from the comparison and counted in coverage.inconclusive.
     # Only a completed exchange may disagree with the model or violate the oracle.
     def suspect(o):
+        # a definite rejection reported by a channel is an observation, whatever the request itself ended with
+        if any(x in ("uacp-too-large", "message-too-large", "too-many-chunks") for x in (o.get("client_chan_err"), o.get("server_recv_err"))):
+            return False
         txt = " ".join(str(o.get(k, "")) for k in ("client_err", "dial_err", "server_recv_err", "server_send_err", "setup_error")).lower()
         return "timeout" in txt or "deadline" in txt
 
